@@ -57,7 +57,9 @@ def header(vt, extra=()):
     h = ["#include <avel/Avel.hpp>",
          "typedef avel::%s V; typedef V::mask M; typedef V::scalar S; typedef V::primitive VP; "
          "typedef M::primitive MP;" % vt.name,
-         "typedef std::array<bool, V::width> BARR;",
+         "typedef std::array<bool, V::width> BARR; typedef std::array<S, V::width> ARR;",
+         ("typedef avel::Vector<avel::to_index_type<S>::type, V::width> IV; typedef IV::primitive IVP;"
+          if vt.eb >= 32 else ""),
          "typedef std::make_unsigned<std::conditional<std::is_integral<S>::value, S, int>::type>::type US;"]
     h += list(extra)
     return h
@@ -459,7 +461,136 @@ def fam_bitcount(vt, cfg):
     return I
 
 
+# ---------------------------------------------------------------------------
+# C08 / C09 memory operations
+
+TIER = "quick"
+
+
+def n_values(w):
+    full = list(range(0, w + 3))
+    if TIER == "thorough" or w <= 16:
+        return full
+    pick = {0, 1, 2, w // 4, w // 2 - 1, w // 2, w // 2 + 1, w - 2, w - 1, w, w + 1, w + 2}
+    return sorted(x for x in pick if 0 <= x <= w + 2)
+
+
+def lane_values(w):
+    if TIER == "thorough" or w <= 16:
+        return list(range(w))
+    return sorted({0, 1, w // 2 - 1, w // 2, w - 2, w - 1})
+
+
+def exp_load(c, n):
+    vt = c.vt
+    m = min(n, vt.n)
+    p = c.args["p"]
+    parts = []
+    if m:
+        parts.append(T.mem(p, 0, m * vt.eb))
+    if m < vt.n:
+        parts.append(T.const((vt.n - m) * vt.eb, 0))
+    return T.concat(parts)
+
+
+def idx_lane(c, i):
+    iv = c.args["idx"]
+    ib = iv[1] // c.vt.n
+    return T.sext(T.slice_(iv, i * ib, ib), 64)
+
+
+def exp_gather(c, n):
+    vt = c.vt
+    m = min(n, vt.n)
+    p = c.args["p"]
+    out = []
+    for i in range(vt.n):
+        if i < m:
+            addr = T.add(p, T.mul(idx_lane(c, i), T.const(64, vt.eb // 8)))
+            base, off = split_addr_(addr)
+            out.append(T.mem(base, off, vt.eb))
+        else:
+            out.append(T.const(vt.eb, 0))
+    return T.concat(out)
+
+
+def split_addr_(t):
+    import irterm
+    return irterm.split_addr(t)
+
+
+def fam_memory(vt, cfg):
+    from memjudge import (judge_load_value, judge_store_value, judge_footprint_load,
+                          judge_footprint_store, judge_gather_value, judge_scatter_value,
+                          judge_footprint_gather, judge_footprint_scatter)
+    I = []
+    w = vt.n
+    CP = [("CP", "p")]
+
+    def both(inst, j8, j9):
+        inst.judges = {"C08": j8, "C09": j9}
+        inst.pure = False
+        I.append(inst)
+    for n in n_values(w):
+        both(Inst("load_n", CP, "V", "avel::load<V>(p, %du)" % n, lambda c, n=n: exp_load(c, n), param=n),
+             judge_load_value, judge_footprint_load(n))
+        both(Inst("aligned_load_n", CP, "V", "avel::aligned_load<V>(p, %du)" % n, lambda c, n=n: exp_load(c, n), param=n),
+             judge_load_value, judge_footprint_load(n))
+        both(Inst("store_n", [("P", "p"), ("V", "a")], "void", "avel::store(p, a, %du)" % n, None, param=n),
+             judge_store_value(n), judge_footprint_store(n))
+        both(Inst("aligned_store_n", [("P", "p"), ("V", "a")], "void", "avel::aligned_store(p, a, %du)" % n, None, param=n),
+             judge_store_value(n), judge_footprint_store(n))
+        if n <= w:
+            both(Inst("load_N", CP, "V", "avel::load<V, %d>(p)" % n, lambda c, n=n: exp_load(c, n), param=n),
+                 judge_load_value, judge_footprint_load(n))
+            both(Inst("aligned_load_N", CP, "V", "avel::aligned_load<V, %d>(p)" % n, lambda c, n=n: exp_load(c, n), param=n),
+                 judge_load_value, judge_footprint_load(n))
+            both(Inst("store_N", [("P", "p"), ("V", "a")], "void", "avel::store<%d>(p, a)" % n, None, param=n),
+                 judge_store_value(n), judge_footprint_store(n))
+            both(Inst("aligned_store_N", [("P", "p"), ("V", "a")], "void", "avel::aligned_store<%d>(p, a)" % n, None, param=n),
+                 judge_store_value(n), judge_footprint_store(n))
+    # run-time n, analysed by substituting each constant for the argument
+    for n in n_values(w) + [w + 9, 255, 256, 65536, 0x7fffffff, 0x80000000, 0xffffffff]:
+        i = Inst("load_rt", [("CP", "p"), ("U32", "n")], "V", "avel::load<V>(p, n)", lambda c, n=n: exp_load(c, n), param=n)
+        i.fname = "w_load_rt"
+        i.subst = {"n": n}
+        both(i, judge_load_value, judge_footprint_load(n))
+        i = Inst("store_rt", [("P", "p"), ("V", "a"), ("U32", "n")], "void", "avel::store(p, a, n)", None, param=n)
+        i.fname = "w_store_rt"
+        i.subst = {"n": n}
+        both(i, judge_store_value(n), judge_footprint_store(n))
+    if vt.eb >= 32:
+        GA = [("CP", "p"), ("VI", "idx")]
+        SA = [("P", "p"), ("V", "a"), ("VI", "idx")]
+        for n in n_values(w):
+            both(Inst("gather_n", GA, "V", "avel::gather<V>(p, idx, %du)" % n, lambda c, n=n: exp_gather(c, n), param=n),
+                 judge_gather_value, judge_footprint_gather(n))
+            both(Inst("scatter_n", SA, "void", "avel::scatter(p, a, idx, %du)" % n, None, param=n),
+                 judge_scatter_value(n), judge_footprint_scatter(n))
+            if n <= w:
+                both(Inst("gather_N", GA, "V", "avel::gather<V, %d>(p, idx)" % n, lambda c, n=n: exp_gather(c, n), param=n),
+                     judge_gather_value, judge_footprint_gather(n))
+                both(Inst("scatter_N", SA, "void", "avel::scatter<%d>(p, a, idx)" % n, None, param=n),
+                     judge_scatter_value(n), judge_footprint_scatter(n))
+    # arrays and lanes
+    both(Inst("to_array", [("P", "p"), ("V", "a")], "void", "*reinterpret_cast<ARR*>(p) = avel::to_array(a)", None),
+         judge_store_value(w), judge_footprint_store(w))
+    both(Inst("from_array", [("CP", "p")], "V", "V{*reinterpret_cast<const ARR*>(p)}", lambda c: exp_load(c, w)),
+         judge_load_value, judge_footprint_load(w))
+    for i in lane_values(w):
+        x = Inst("extract", [("V", "a")], "S", "avel::extract<%d>(a)" % i,
+                 lambda c, i=i: T.slice_(c.args["a"], i * c.vt.eb, c.vt.eb), param=i)
+        x.judges = {"C08": None}
+        I.append(x)
+        x = Inst("insert", [("V", "a"), ("S", "x")], "V", "avel::insert<%d>(a, x)" % i,
+                 lambda c, i=i: c.pack([c.args["x"] if j == i else l for j, l in enumerate(c.lanes("a"))]), param=i)
+        x.judges = {"C08": None}
+        I.append(x)
+    return I
+
+
 FAMILIES = {
+    "memory": fam_memory,
     "select": fam_select,
     "bitcount": fam_bitcount,
     "mask": fam_mask,
